@@ -17,7 +17,15 @@ def oracle(d):
 
 
 def run(ctx):
-    return ec.generic(ctx, 'C13', OPTS, n_quick=(48, 100), n_thorough=(128, 400), with_values=True, with_parse=False, oracle=oracle)
+    res = ec.generic(ctx, 'C13', OPTS, n_quick=(48, 100), n_thorough=(128, 400), with_values=True, with_parse=False, oracle=oracle)
+    od = getattr(ctx, 'order_diff', None)
+    if od:
+        # the attribute table of a type depends on which other type was used first in the process: class-level state leaks
+        res['violations'] = list(res.get('violations', [])) + [{'replay': {
+            'property': 'C13', 'kind': 'property-violated-on-real-code',
+            'what_fails': 'the attribute table of %s depends on the order in which the types are first used in the process' % od['type'],
+            'order_dependence': od}}]
+    return res
 
 
 def replay(ctx, payload):
